@@ -443,5 +443,8 @@ PROPS["C20"]["rules"] = PROPS["C20"]["rules"] + [rules_limits.rule_dd_length_non
 PROPS["C20"]["explanation"] += " (NEGLEN) a caller-supplied length is compared with 0 before a public routine stores it in a descriptor."
 PROPS["C01"]["rules"] = PROPS["C01"]["rules"] + [rules_limits.rule_dd_length_nonnegative]
 
+PROPS["C08"]["rules"] = PROPS["C08"]["rules"] + [rules_idioms.rule_nullable_string_guarded]
+PROPS["C08"]["explanation"] += " (NULLNAME) every string read of a Vgroup's name or class (NULL until set) sits under a NULL test of that field."
+
 NOT_APPLICABLE = {}
 
